@@ -7,7 +7,10 @@ spec/DTD/SeqTraceValues.tla  1-4 processes: the Owner(d, v) events logged by the
 spec/DTD/SeqTrace.tla        same on one process, with the ordering guard
 Programs: TLC -simulate of Seq with affinities over 0..3 (task placed by a PARSEC_VALUE|PARSEC_AFFINITY rank), run by
 harness/dtd/run_prog.c with flush_all, or parsec_dtd_data_flush of a random subset of the data followed by flush_all (every datum has to be
-flushed before the wait).  A program found by these runs (a flushed value copied over the owner's copy while an earlier
+flushed before the wait).  Half of the multi-process runs (ar=1 in the program line) use tiles 4 ints wide with distinct
+element values, accessed with the SECOND attached arena datatype (id 1; a one-int datatype is attached first, id 0): the owner
+logs the value held by every element ("vs"), so a flush that moves the tile with another datatype than the tile's (a partial
+copy) is rejected by SeqTraceValues.  A program found by these runs (a flushed value copied over the owner's copy while an earlier
 local reader is pending, 1-2 % of its executions on 2 processes) is repeated 200 / 1500 times.
 """
 import json
@@ -22,8 +25,10 @@ META = {
             "with parsec_dtd_data_flush_all or parsec_dtd_data_flush of a subset, then parsec_taskpool_wait; every owner "
             "logs the content of its copy of each flushed datum and TLC validates the recorded executions against the "
             "sequential interpretation of the inserted program (SeqTraceValues / SeqTrace).",
-    "note": "Model exhaustive for 3 tasks on 2 data; implementation sampled: programs of 6-12 tasks over 2-4 one-int tiles "
-            "distributed block-cyclically, 1-4 processes, 2 threads each. Trusted: TLC, MPI, the recorder.",
+    "note": "Model exhaustive for 3 tasks on 2 data; implementation sampled: programs of 6-12 tasks over 2-4 tiles "
+            "distributed block-cyclically, 1-4 processes, 2 threads each; half of the multi-process runs use tiles 4 ints wide "
+            "(distinct element values, every element compared) accessed with the second of two attached arena datatypes, the "
+            "others one-int tiles with a single datatype. Trusted: TLC, MPI, the recorder.",
     "technique": "TLA+ spec (TLC) generates programs, run on real MPI processes + trace validation (TLC)",
 }
 
@@ -63,13 +68,17 @@ def run(ctx):
         ranks = [1, 2, 3, 4]
     ctx.extra["programs_from_tlc"] = len(progs)
     single, multi = [], []
-    remote = 0
+    remote = remote_wide = 0
     for nr in ranks:
         lines = []
         for k, p in enumerate(progs):
             w, th = [(2048, 2048), (2, 1)][k % 2]
-            lines.append(base.prog_line(p, fl=flush_spec(p, ctx.rng, k + nr), w=w, th=th, sp=(20, 120)))
+            # several processes: every other pair of programs uses tiles 4 ints wide accessed with the arena datatype
+            # attached SECOND (id 1), a one-int datatype sits under id 0: a flush moving the wrong datatype truncates
+            ar = ((k // 2) + nr) % 2 if nr > 1 else 0
+            lines.append(base.prog_line(p, fl=flush_spec(p, ctx.rng, k + nr), w=w, th=th, sp=(20, 120), ar=ar))
             remote += last_writer_remote(p, nr)
+            remote_wide += last_writer_remote(p, nr) if ar else 0
         s, t = [("lfq", 2), ("ap", 2), ("pbq", 3), ("gd", 2)][nr % 4]
         ex = base.run_batch(ctx, exe, lines, "f%d" % nr, threads=t, sched=s, nranks=nr, timeout=900,
                             env={"VERIF_ALARM": "40"})
@@ -100,7 +109,9 @@ def run(ctx):
     ctx.extra["executions"] = len(single) + len(multi)
     ctx.extra["owner_observations"] = owners
     ctx.extra["data_whose_last_writer_is_not_on_the_owner"] = remote
-    if owners == 0 or remote == 0:
+    ctx.extra["idem_with_wide_tiles_under_second_arena_datatype"] = remote_wide
+    ctx.extra["executions_two_arena_datatypes"] = sum(1 for x in multi if " ar=1" in x.line)
+    if owners == 0 or remote == 0 or remote_wide == 0:
         raise tlc.TLCError("no flushed datum was observed / no datum had a remote last writer: vacuous run")
     okm = [x for x in multi if not x.failed and any(e.get("e") == "Owner" for pr in x.per_rank for e in pr)]
     if okm:
@@ -116,7 +127,25 @@ def run(ctx):
         if not br.failures:
             raise tlc.TLCError("SeqTraceValues accepts a corrupted owner value")
         ctx.extra["corrupted_trace_rejected"] = True
-    ctx.assume("tiles: one int each, 1-D block-cyclic over the processes; every process inserts the same program")
+    okw = [x for x in okm if " ar=1" in x.line]
+    if okw:     # one element of a wide owner tile differs (what a partial copy leaves): must be rejected
+        evs = base.merged_events(okw[0])
+        ctx.sample({"config": okw[0].cfg, "program_two_arena_datatypes": okw[0].line,
+                    "owner_events": [e for e in evs if e.get("e") == "Owner"]})
+        bad = json.loads(json.dumps(evs))
+        for e in bad:
+            if e.get("e") == "Owner" and len(e.get("vs", [])) > 1:
+                e["vs"][-1] = (e["vs"][-1] + 1) % 1000003
+                break
+        else:
+            raise tlc.TLCError("no wide Owner event in a two-datatype execution")
+        br = tracecheck.validate_executions(ctx.spec("DTD"), "SeqTraceValues", "SeqTraceValues.cfg", [bad], confirm=False,
+                                            max_failures=1)
+        if not br.failures:
+            raise tlc.TLCError("SeqTraceValues accepts an owner tile with one stale element")
+        ctx.extra["partially_copied_tile_rejected"] = True
+    ctx.assume("tiles: one int each (one arena datatype, id 0) or 4 ints each (arena datatype id 1, a one-int datatype "
+               "under id 0), 1-D block-cyclic over the processes; every process inserts the same program")
     ctx.assume("programs do not give one datum to several parameters of a task (C03 covers that)")
 
 
